@@ -240,7 +240,7 @@ class VFile:
             return None
         if name == "readlines":
             return self.text_lines()
-        if name == "read":
+        if name in ("read", "getvalue"):
             return "".join(self.lines)
         if name in ("close", "flush", "__enter__", "__exit__"):
             return None
@@ -395,6 +395,37 @@ class LazyIter:
         return "<iterator %d/%d>" % (self.pos, len(self.items))
 
 
+class ProtoIter(LazyIter):
+    """An object that implements the iterator protocol (__next__): elements are produced on demand by calling it."""
+
+    def __init__(self, it, obj, fn):
+        self.it, self.obj, self.fn = it, obj, fn
+        self.done = False
+
+    def next(self):
+        if self.done:
+            raise StopIteration
+        try:
+            return self.it.call_function(self.fn, [self.obj])
+        except PathRaise as e:
+            if e.exc.split("(")[0] == "StopIteration":
+                self.done = True
+                raise StopIteration
+            raise
+
+    def drain(self):
+        out = []
+        while len(out) < 100000:
+            try:
+                out.append(self.next())
+            except StopIteration:
+                return out
+        raise Unsupported("iterator object that does not terminate")
+
+    def __repr__(self):
+        return "<iterator object %r>" % (self.obj,)
+
+
 class GenObj(LazyIter):
     """A generator object: the body of the generator function runs in its own thread, strictly alternating with the consumer,
     so that the statements between two `yield`s execute when the consumer asks for the next element (true laziness: side effects
@@ -544,6 +575,26 @@ class IndexSet:
         self.pairs = pairs
 
 
+class Arr3:
+    """A stack of equally shaped matrices (a 3-D array used for batched products): shape (k, r, c)."""
+
+    def __init__(self, mats):
+        self.mats = list(mats)
+
+    @property
+    def shape(self):
+        return (len(self.mats),) + tuple(self.mats[0].shape)
+
+    ndim = 3
+
+
+class IndexGrid:
+    """A 2-D array of integer positions used to index a 1-D array (a gather: the result has the grid's shape)."""
+
+    def __init__(self, rows):
+        self.rows = rows
+
+
 class Opaque:
     """An uninterpreted python-level value (module, function reference, ...)."""
 
@@ -631,6 +682,7 @@ class Interp:
         self.gen_stack = []          # generator objects whose body is currently executing (innermost last)
         self.nonneg_keys = set()     # keys of polynomials known to be sums of squares by construction (x . x)
         self.len_objs = []           # the objects returned by len(<collection>) (identity matters: `n = len(xs); if n > 100`)
+        self.nonneg_prefixes = set()  # prefixes of symbols that stand for quantities >= 0 by nature (uninterpreted chi^2 values)
         self.maybe_nonfinite = set()  # prefixes of symbols that stand for possibly non-finite numbers (results of an uninterpreted solve)
         self.int_objs = {}            # id(Poly) -> Poly for values that are Python ints (int literals, len(), range(), sums of ints)
         self.while_depth_at = {}
@@ -657,6 +709,11 @@ class Interp:
         if c is not None:
             s = (c > 0) - (c < 0)
             return s in true_signs
+        if d.variables() == {PI_NAME}:
+            # a polynomial in pi alone is a number: its sign is decided numerically (pi is transcendental, so it is never exactly 0)
+            pv = self.pi_value(d)
+            if pv is not None and abs(pv) > 1e-9:
+                return ((pv > 0) - (pv < 0)) in true_signs
         hinted = None
         if self.hook is not None:
             h = self.hook(d)
@@ -737,6 +794,15 @@ class Interp:
                     changed = True
                     continue
                 if () not in terms and nonconst and all(len(m) == 1 and m[0][1] == 2 for m, c in nonconst) and \
+                        (all(c > 0 for m, c in nonconst) or all(c < 0 for m, c in nonconst)):
+                    for m, c in nonconst:
+                        sub[poly.R.vars[m[0][0]]] = Fraction(0)
+                    changed = True
+                    continue
+                # c_1 x_1 + ... + c_n x_n == 0 with all c_i of one sign and every x_i a quantity that is non-negative by nature (the
+                # chi^2 of an edge): every x_i = 0
+                if () not in terms and nonconst and self.nonneg_prefixes and all(len(m) == 1 and m[0][1] == 1 and
+                                                                                poly.R.vars[m[0][0]].startswith(tuple(self.nonneg_prefixes)) for m, c in nonconst) and \
                         (all(c > 0 for m, c in nonconst) or all(c < 0 for m, c in nonconst)):
                     for m, c in nonconst:
                         sub[poly.R.vars[m[0][0]]] = Fraction(0)
@@ -969,14 +1035,84 @@ class Interp:
             if post is not None and post[0] == "method":
                 self.call_function(post[1][0], [obj])
             obj.tuple_fields = names if any("NamedTuple" in b or "namedtuple" in b for b in ci.bases) else None
+        elif self.functional_nt_fields(clsname) is not None:
+            # class X(namedtuple("X", [...])): the fields come from the functional base
+            names = self.functional_nt_fields(clsname)
+            if len(args) > len(names) or any(x not in names for x in kw):
+                raise PathRaise("TypeError(%s() got unexpected arguments)" % clsname, "constructor")
+            vals = dict(zip(names, args))
+            vals.update(kw)
+            if len(vals) != len(names):
+                raise PathRaise("TypeError(%s() missing arguments)" % clsname, "constructor")
+            for x in names:
+                obj.fields[x] = vals[x]
+            obj.tuple_fields = list(names)
         elif args or kw:
             raise Unsupported("constructor arguments without __init__ for %s" % clsname)
         return obj
 
     # ------------------------------------------------------------------------------------ statements
     def block(self, stmts, env):
-        for st in stmts:
+        i = 0
+        while i < len(stmts):
+            st = stmts[i]
+            if isinstance(st, ast.While) and i + 1 < len(stmts) and isinstance(stmts[i + 1], ast.While) and self.reduction_pair(st, stmts[i + 1], env):
+                i += 2
+                continue
             self.stmt(st, env)
+            i += 1
+
+    def reduction_shape(self, st, env):
+        """(variable, 'down' | 'up', bound a, step |c|) of `while x >= a: x -= c` / `while x < a: x += c`, or None."""
+        if st.orelse or len(st.body) != 1 or not isinstance(st.body[0], ast.AugAssign) or not isinstance(st.test, ast.Compare) or len(st.test.ops) != 1:
+            return None
+        aug = st.body[0]
+        if not isinstance(aug.target, ast.Name) or not isinstance(aug.op, (ast.Add, ast.Sub)):
+            return None
+        name = aug.target.id
+        lhs, rhs, op = st.test.left, st.test.comparators[0], type(st.test.ops[0])
+        if isinstance(rhs, ast.Name) and rhs.id == name:
+            lhs, rhs = rhs, lhs
+            op = {ast.Lt: ast.Gt, ast.LtE: ast.GtE, ast.Gt: ast.Lt, ast.GtE: ast.LtE}.get(op)
+        if not (isinstance(lhs, ast.Name) and lhs.id == name) or op not in (ast.Lt, ast.LtE, ast.Gt, ast.GtE) or name not in env:
+            return None
+        try:
+            a, c = self.ev(rhs, env), self.ev(aug.value, env)
+        except Unsupported:
+            return None
+        av, cv = self.pi_value(a), self.pi_value(c)
+        if av is None or cv is None or cv == 0:
+            return None
+        step = cv if isinstance(aug.op, ast.Add) else -cv
+        if op in (ast.GtE, ast.Gt) and step < 0:
+            return (name, "down", a, c if cv > 0 else -c, op)
+        if op in (ast.Lt, ast.LtE) and step > 0:
+            return (name, "up", a, c if cv > 0 else -c, op)
+        return None
+
+    def reduction_pair(self, st1, st2, env):
+        """`while x >= hi: x -= m` followed by `while x < lo: x += m` with hi - lo == m (either order): together they reduce x
+        modulo m into [lo, hi) -- a wrap computed by iteration, the same function as ((x - lo) mod m) + lo, with no case split."""
+        s1, s2 = self.reduction_shape(st1, env), self.reduction_shape(st2, env)
+        if s1 is None or s2 is None or s1[0] != s2[0] or {s1[1], s2[1]} != {"down", "up"}:
+            return False
+        down, up = (s1, s2) if s1[1] == "down" else (s2, s1)
+        hi, lo, m = down[2], up[2], down[3]
+        mv = self.pi_value(m)
+        if abs(self.pi_value(m) - self.pi_value(up[3])) > 1e-12 or abs(self.pi_value(hi) - self.pi_value(lo) - mv) > 1e-12:
+            return False
+        if down[4] is not ast.GtE or up[4] is not ast.Lt:
+            return False                      # (x > hi / x <= lo leave the boundary on the other side: handled loop by loop)
+        x = env[s1[0]]
+        if isinstance(x, Wrapped):
+            x = self.unwrap(x, st1)
+        if not isinstance(x, Poly):
+            return False
+        if x.const_value() is not None:
+            return False                      # a concrete number: the loops simply run
+        self.events.append(("iterated-wrap", "`%s` / `%s` at %s" % (ast.unparse(st1).split("\n")[0][:50], ast.unparse(st2).split("\n")[0][:50], self.where(st1))))
+        env[s1[0]] = Wrapped(x - lo, m, lo)
+        return True
 
     def stmt(self, st, env):
         if isinstance(st, ast.Expr):
@@ -1001,6 +1137,12 @@ class Interp:
                 self.block(st.orelse, env)
         elif isinstance(st, ast.For):
             src = self.ev(st.iter, env)
+            if isinstance(src, Obj) and self.dunder(src, "__iter__") is not None:
+                r_ = self.call_function(self.dunder(src, "__iter__"), [src])
+                if isinstance(r_, Obj) and self.dunder(r_, "__next__") is not None:
+                    src = ProtoIter(self, r_, self.dunder(r_, "__next__"))       # elements are produced as the loop asks for them
+                else:
+                    src = r_
             if isinstance(src, LazyIter):
                 def pull(src=src):
                     while True:
@@ -1045,6 +1187,8 @@ class Interp:
         elif isinstance(st, ast.Pass):
             pass
         elif isinstance(st, ast.While):
+            if self.reduction_loop(st, env):
+                return
             n_iter = 0
             broke = False
             lvl = len(self.fn_stack)
@@ -1100,6 +1244,15 @@ class Interp:
                     base = self.ev(t.value, env)
                     if isinstance(base, dict):
                         base.pop(self.hashable(self.ev(t.slice, env), t), None)
+                    elif isinstance(base, list):
+                        idx_ = self.ev_index(t.slice, env)
+                        if isinstance(idx_, (int, slice)):
+                            try:
+                                del base[idx_]
+                            except IndexError:
+                                raise PathRaise("IndexError(list assignment index out of range)", self.where(st))
+                        else:
+                            raise self.unsupported("del with index %r" % (idx_,), st)
                     else:
                         raise self.unsupported("del of a sequence element", st)
                 else:
@@ -1357,13 +1510,18 @@ class Interp:
         if isinstance(v, (list, tuple)):
             return list(v)
         if isinstance(v, Obj) and self.dunder(v, "__iter__") is not None:
-            return self.iterate(self.call_function(self.dunder(v, "__iter__"), [v]), node)
+            r_ = self.call_function(self.dunder(v, "__iter__"), [v])
+            if isinstance(r_, Obj) and self.dunder(r_, "__next__") is not None:
+                return ProtoIter(self, r_, self.dunder(r_, "__next__")).drain()
+            return self.iterate(r_, node)
         if isinstance(v, Obj) and getattr(v, "tuple_fields", None):
             return [v.fields[k] for k in v.tuple_fields]
         if isinstance(v, BytesVal):
             return list(v.vals)
         if isinstance(v, VFile):
             return v.text_lines()
+        if isinstance(v, Arr3):
+            return list(v.mats)
         if isinstance(v, IndexSet):
             return [Arr([Poly.const(i) for i, _ in v.pairs], 1), Arr([Poly.const(j) for _, j in v.pairs], 1)]
         if isinstance(v, (frozenset, set)):
@@ -1569,6 +1727,13 @@ class Interp:
             if isinstance(idx, slice):
                 n = len(base.data[idx])
                 base.data[idx] = [_elem(x) for x in self.flat_values(v, n, node)]
+            elif isinstance(idx, list):
+                vals = self.flat_values(v, len(idx), node)
+                for i_, x in zip(idx, vals):
+                    if not -len(base.data) <= i_ < len(base.data):
+                        raise PathRaise("IndexError(index out of bounds)", self.where(node))
+                    base.data[i_] = _elem(x)
+                self.after_write(base)
             else:
                 base.data[idx] = _elem(v if isinstance(v, Quot) else self.scalar(v, node))
             return
@@ -1718,6 +1883,19 @@ class Interp:
         if isinstance(v, complex):
             return Cx(Poly.const(v.real), Poly.const(v.imag))
         raise self.unsupported("constant %r" % (v,), n)
+
+    def functional_nt_fields(self, clsname):
+        """Field names when a class in the MRO derives from `namedtuple("Name", fields)` written as a call in the base list."""
+        for c in self.pkg.mro(clsname):
+            for b in self.pkg.classes[c].bases:
+                if isinstance(b, str) and b.replace("collections.", "").startswith("namedtuple("):
+                    try:
+                        call = ast.parse(b, mode="eval").body
+                        f = ast.literal_eval(call.args[1])
+                    except Exception:  # noqa
+                        return None
+                    return f.replace(",", " ").split() if isinstance(f, str) else list(f)
+        return None
 
     def as_int(self, p):
         """Tag a Poly object as a Python int (as opposed to a float with an integer value): `type(x) is int` tells them apart."""
@@ -2052,6 +2230,23 @@ class Interp:
             else:
                 raise self.unsupported("membership test in %r" % (r,), node)
             return res if isinstance(op, ast.In) else not res
+        if type(op) in SIGNS_OF and (isinstance(l, Wrapped) or isinstance(r, Wrapped)):
+            # a wrapped value lies in [offset, offset + modulus): comparisons with constants outside that interval are decided by it
+            w_, c_, flip = (l, r, False) if isinstance(l, Wrapped) else (r, l, True)
+            if isinstance(c_, Poly):
+                lo_, hi_, cv_ = self.pi_value(w_.offset), self.pi_value(w_.offset + w_.modulus), self.pi_value(c_)
+                if None not in (lo_, hi_, cv_):
+                    o_ = type(op)
+                    if flip:
+                        o_ = {ast.Lt: ast.Gt, ast.LtE: ast.GtE, ast.Gt: ast.Lt, ast.GtE: ast.LtE}.get(o_, o_)
+                    if cv_ <= lo_ + 1e-12 and o_ in (ast.GtE, ast.Lt):
+                        return o_ is ast.GtE            # w >= c always / w < c never   (c <= lower end)
+                    if cv_ < lo_ - 1e-12 and o_ in (ast.Gt, ast.LtE):
+                        return o_ is ast.Gt
+                    if cv_ >= hi_ - 1e-12 and o_ in (ast.Lt, ast.GtE):
+                        return o_ is ast.Lt             # w < c always / w >= c never   (c >= upper end, which is excluded)
+                    if cv_ >= hi_ - 1e-12 and o_ in (ast.LtE, ast.Gt):
+                        return o_ is ast.LtE
         if isinstance(l, Wrapped):
             l = self.unwrap(l, node)
         if isinstance(r, Wrapped):
@@ -2184,6 +2379,8 @@ class Interp:
             if self.pkg.lookup(a.cls, name):
                 return self.call_method(a, name, [b])
         if op is ast.MatMult:
+            if isinstance(a, Arr3) or isinstance(b, Arr3):
+                return self.matmul3(a, b, n)
             return self.dot(a, b, n)
         if isinstance(a, bool) and isinstance(b, bool) and op in (ast.BitXor, ast.BitAnd, ast.BitOr):
             return {ast.BitXor: a ^ b, ast.BitAnd: a & b, ast.BitOr: a | b}[op]
@@ -2234,6 +2431,65 @@ class Interp:
         if isinstance(v, bool):
             raise self.unsupported("bool used as number", node)
         raise self.unsupported("expected a scalar, got %r" % (v,), node)
+
+    @staticmethod
+    def pi_value(p):
+        """Numeric value of a polynomial in pi alone (None if it involves anything else)."""
+        import math
+        if not isinstance(p, Poly):
+            return None
+        tot = 0.0
+        for m, c in p.t.items():
+            term = float(Fraction(c))
+            for vi, e in m:
+                if poly.R.vars[vi] != PI_NAME:
+                    return None
+                term *= math.pi ** e
+            tot += term
+        return tot
+
+    def reduction_loop(self, st, env):
+        """`while x >= a: x -= c` / `while x < a: x += c` on a symbolic x (constants a, c): the loop subtracts / adds whole multiples
+        of c until x is in the interval next to a -- a wrap computed by iteration.  Returns True if the loop was of that kind (and
+        has been executed in closed form)."""
+        if st.orelse or len(st.body) != 1 or not isinstance(st.body[0], ast.AugAssign) or not isinstance(st.test, ast.Compare) or \
+                len(st.test.ops) != 1:
+            return False
+        aug = st.body[0]
+        if not isinstance(aug.target, ast.Name) or not isinstance(aug.op, (ast.Add, ast.Sub)):
+            return False
+        name = aug.target.id
+        lhs, rhs, op = st.test.left, st.test.comparators[0], type(st.test.ops[0])
+        if isinstance(rhs, ast.Name) and rhs.id == name:
+            lhs, rhs = rhs, lhs
+            op = {ast.Lt: ast.Gt, ast.LtE: ast.GtE, ast.Gt: ast.Lt, ast.GtE: ast.LtE}.get(op)
+        if not (isinstance(lhs, ast.Name) and lhs.id == name) or op not in (ast.Lt, ast.LtE, ast.Gt, ast.GtE) or name not in env:
+            return False
+        x = env[name]
+        if not isinstance(x, (Poly, Wrapped)) or (isinstance(x, Poly) and x.const_value() is not None):
+            return False
+        try:
+            a, c = self.ev(rhs, env), self.ev(aug.value, env)
+        except Unsupported:
+            return False
+        av, cv = self.pi_value(a), self.pi_value(c)
+        if av is None or cv is None or cv == 0:
+            return False
+        step = cv if isinstance(aug.op, ast.Add) else -cv          # x += step per pass
+        if (op in (ast.GtE, ast.Gt) and step >= 0) or (op in (ast.Lt, ast.LtE) and step <= 0):
+            return False                                            # does not move towards leaving the loop: not a reduction
+        if not self.truth(self.compare_values(op(), x, a), st.test):
+            return True                                             # the loop body never runs on this path
+        m = c if cv > 0 else -c
+        if isinstance(x, Wrapped):
+            x = self.unwrap(x, st)
+        self.events.append(("iterated-wrap", "`%s` at %s" % (ast.unparse(st).split("\n")[0][:60], self.where(st))))
+        if op in (ast.GtE, ast.Gt):
+            lo = a - m                                              # ends in [a - |c|, a)
+        else:
+            lo = a                                                  # ends in [a, a + |c|)
+        env[name] = Wrapped(x - lo, m, lo)
+        return True
 
     def unwrap(self, w, node):
         """A wrapped angle as an element of R/2piZ: inner + offset, provided the modulus is a multiple of 2*pi."""
@@ -2468,6 +2724,8 @@ class Interp:
             return [x if isinstance(x, int) else self.intval(x, sl) for x in v]
         if isinstance(v, Arr) and v.ndim == 1 and all(x.const_value() is not None for x in v.data):
             return [self.intval(x, sl) for x in v.data]
+        if isinstance(v, Arr) and v.ndim == 2 and all(isinstance(x, Poly) and x.const_value() is not None for x in v.flat()):
+            return IndexGrid([[self.intval(x, sl) for x in r] for r in v.data])
         if isinstance(v, tuple) and all(isinstance(x, Poly) for x in v):
             return tuple(self.intval(x, sl) for x in v)
         return self.intval(v, sl)
@@ -2512,6 +2770,21 @@ class Interp:
         return self.index(v, idx, n)
 
     def index(self, v, idx, node):
+        if isinstance(v, Arr3):
+            if isinstance(idx, int):
+                if not -len(v.mats) <= idx < len(v.mats):
+                    raise PathRaise("IndexError", self.where(node))
+                return v.mats[idx]
+            if isinstance(idx, slice):
+                return Arr3(v.mats[idx])
+            raise self.unsupported("index %r into a stack of matrices" % (idx,), node)
+        if isinstance(idx, IndexGrid):
+            if not isinstance(v, Arr) or v.ndim != 1:
+                raise self.unsupported("2-D integer index into %r" % (v,), node)
+            n_ = len(v.data)
+            if any(not -n_ <= k < n_ for r in idx.rows for k in r):
+                raise PathRaise("IndexError(index out of bounds)", self.where(node))
+            return Arr([[v.data[k] for k in r] for r in idx.rows], 2)
         if isinstance(idx, NonZeroMask):
             if not isinstance(v, Arr) or v.ndim != 1 or len(v.data) != len(idx.flat):
                 raise self.unsupported("value-dependent mask applied to %r" % (v,), node)
@@ -2906,6 +3179,8 @@ class Interp:
             return NDARRAY
         if a in ("linalg", "random"):
             return Opaque("npsub", a)
+        if mod == "math" and a == "sqrt":
+            return Opaque("npfunc", "math.sqrt")       # math.sqrt raises ValueError for a negative argument, np.sqrt returns nan
         return Opaque("npfunc", a)
 
     # ------------------------------------------------------------------------------------ calls
@@ -3023,6 +3298,13 @@ class Interp:
             return Opaque("logger")
         if origin.startswith("warnings"):
             return None
+        if origin in ("io.StringIO", "StringIO.StringIO"):
+            init_ = args[0] if args else ""
+            if not isinstance(init_, str):
+                raise self.unsupported("StringIO of a non-string", n)
+            return VFile("<StringIO>", [init_] if init_ else [])
+        if origin == "itertools.chain.from_iterable" and len(args) == 1:
+            return LazyIter([x for s_ in self.iterate(args[0], n) for x in self.iterate(s_, n)])
         if origin.startswith("itertools"):
             import itertools as _it
             seqs = [self.iterate(a, n) for a in args] if leaf in ("chain", "product") else []
@@ -3228,6 +3510,33 @@ class Interp:
             if origin.startswith("scipy.sparse"):
                 res_.sparse = True
             return res_
+        if origin in ("collections.namedtuple",) and len(args) >= 2 and isinstance(args[0], str):
+            # the functional form of a record type: instances are tuples with named fields
+            names = args[1].replace(",", " ").split() if isinstance(args[1], str) else [x for x in self.iterate(args[1], n)]
+            if not all(isinstance(x, str) for x in names):
+                raise self.unsupported("namedtuple with computed field names", n)
+            defaults = list(self.iterate(kw["defaults"], n)) if kw.get("defaults") is not None else []
+            tname = args[0]
+
+            def ctor(*a_, **k_):
+                if len(a_) > len(names) or any(x not in names for x in k_):
+                    raise PathRaise("TypeError(%s() got unexpected arguments)" % tname, self.where(n))
+                vals = dict(zip(names, a_))
+                for x, y in k_.items():
+                    if x in vals:
+                        raise PathRaise("TypeError(%s() got multiple values for %s)" % (tname, x), self.where(n))
+                    vals[x] = y
+                for x, y in zip(names[len(names) - len(defaults):], defaults):
+                    vals.setdefault(x, y)
+                missing = [x for x in names if x not in vals]
+                if missing:
+                    raise PathRaise("TypeError(%s() missing %s)" % (tname, missing), self.where(n))
+                o = Obj(tname)
+                for x in names:
+                    o.fields[x] = vals[x]
+                o.tuple_fields = list(names)
+                return o
+            return Opaque("callable", ctor)
         if origin.startswith("cmath."):
             z = args[0] if args else None
             if leaf == "phase" and isinstance(z, (Cx, Poly)):
@@ -3995,6 +4304,13 @@ class Interp:
                 cls, slf = args
             return SuperRef(cls.name, slf)
         if name == "print":
+            if isinstance(kw.get("file"), VFile):
+                sep_ = kw.get("sep", " ")
+                end_ = kw.get("end", "\n")
+                sep_ = " " if sep_ is None else sep_
+                end_ = "\n" if end_ is None else end_
+                kw["file"].lines.append(sep_.join(self.render(a, n) for a in args) + end_)
+                return None
             if "print" in self.overrides:
                 return self.overrides["print"](*args)
             return None
@@ -4123,7 +4439,7 @@ class Interp:
             return Arr([self.scalar(x, node) for x in v], 1)
         raise self.unsupported("cannot convert %r to an array" % (v,), node)
 
-    def np_sqrt(self, p, node):
+    def np_sqrt(self, p, node, math_domain=False):
         if isinstance(p, Arr):
             return p.map(lambda x: self.np_sqrt(x, node))
         p = self.scalar(p, node)
@@ -4139,6 +4455,8 @@ class Interp:
         if c is None and not self.sqrt_arg_nonnegative(p):
             # the argument may be negative on this path: explore both; the negative branch produces nan
             if not self.decide_sign(p, {0, 1}, "%s >= 0" % p.short(60)):
+                if math_domain:
+                    raise PathRaise("ValueError(math domain error)", self.where(node))
                 raise PathRaise("FloatingPointError(sqrt of a negative number: nan)", self.where(node))
         return poly.atom("sqrt", p)
 
@@ -4228,6 +4546,20 @@ class Interp:
         if y.is_zero() and x == Poly.const(1):
             return Poly()
         raise self.unsupported("atan2 of arguments that are not (sin t, cos t) of a known angle", node)
+
+    def matmul3(self, a, b, node):
+        """np.matmul / @ with stacks of matrices: the product is taken matrix by matrix, a plain matrix is used for every member."""
+        k = len(a.mats) if isinstance(a, Arr3) else len(b.mats)
+        if isinstance(a, Arr3) and isinstance(b, Arr3) and len(a.mats) != len(b.mats):
+            raise PathRaise("ValueError(matmul: stacks of different length)", self.where(node))
+        out = []
+        for i in range(k):
+            x = a.mats[i] if isinstance(a, Arr3) else self.to_arr(a, node)
+            y = b.mats[i] if isinstance(b, Arr3) else self.to_arr(b, node)
+            out.append(self.dot(x, y, node))
+        if not all(isinstance(m_, Arr) and m_.ndim == 2 for m_ in out):
+            raise self.unsupported("matmul of a stack with a vector", node)
+        return Arr3(out)
 
     def dot(self, a, b, node):
         if isinstance(a, (list, tuple)):
@@ -4325,6 +4657,8 @@ class Interp:
             return c if name == "cos" else s
         if name in ("arctan2", "atan2"):
             return self.atan2(args[0], args[1], n)
+        if name == "matmul" and (isinstance(args[0], Arr3) or isinstance(args[1], Arr3)):
+            return self.matmul3(args[0], args[1], n)
         if name in ("dot", "matmul"):
             return self.dot(args[0], args[1], n)
         if name in ("eye", "identity"):
@@ -4418,6 +4752,8 @@ class Interp:
             raise self.unsupported("np.linalg.inv", n)
         if name == "sqrt":
             return self.np_sqrt(args[0], n)
+        if name == "math.sqrt":
+            return self.np_sqrt(args[0], n, math_domain=True)
         if name in ("hstack", "concatenate"):
             parts = [self.to_arr(x, n) for x in self.iterate(args[0], n)]
             axis = self.intval(kw["axis"], n) if "axis" in kw else (self.intval(args[1], n) if len(args) > 1 else 0)
@@ -4581,6 +4917,35 @@ class Interp:
                     raise PathRaise("ValueError(shape mismatch: objects cannot be broadcast to a single shape)", self.where(n))
                 out_.append(dims_.pop() if dims_ else 1)
             return tuple(Poly.const(x) for x in reversed(out_))
+        if name in ("max", "min", "amax", "amin") and args and kw.get("axis") is None and len(args) == 1:
+            v_ = self.maybe_arr(args[0], n)
+            items_ = list(v_.flat()) if isinstance(v_, Arr) else list(self.iterate(v_, n))
+            if "initial" in kw:
+                items_.append(self.scalar(kw["initial"], n))
+            if not items_:
+                raise PathRaise("ValueError(zero-size array to reduction operation)", self.where(n))
+            return self.builtin("max" if name in ("max", "amax") else "min", [items_], {}, n, {})
+        if name in ("split", "array_split") and len(args) == 2 and kw.get("axis", None) in (None, 0) or (name == "split" and len(args) == 2 and isinstance(kw.get("axis"), Poly) and kw["axis"].const_value() == 0):
+            a_ = self.to_arr(args[0], n)
+            if a_.ndim != 1:
+                raise self.unsupported("np.split of a 2-D array", n)
+            sec = args[1]
+            if isinstance(sec, Poly):
+                k_ = self.intval(sec, n)
+                if len(a_.data) % k_:
+                    raise PathRaise("ValueError(array split does not result in an equal division)", self.where(n))
+                cuts = [len(a_.data) // k_ * i for i in range(1, k_)]
+            else:
+                cuts = [self.intval(x, n) for x in (sec.data if isinstance(sec, Arr) else self.iterate(sec, n))]
+            bounds = [0] + cuts + [len(a_.data)]
+            out_ = []
+            for lo_, hi_ in zip(bounds[:-1], bounds[1:]):
+                lo_, hi_ = min(max(lo_, 0), len(a_.data)), min(max(hi_, 0), len(a_.data))
+                piece = Arr(list(a_.data[lo_:hi_]), 1)
+                if hi_ > lo_:
+                    self.make_view(piece, a_, [(i,) for i in range(lo_, hi_)])      # np.split returns views
+                out_.append(piece)
+            return out_
         if name == "remainder" and len(args) == 2:
             # IEEE remainder x - m*round_half_even(x/m): congruent to x modulo m and in the *closed* interval [-m/2, m/2] -- at the
             # boundary the result is not a function of the residue class (remainder(pi, 2pi) = pi, remainder(-pi, 2pi) = -pi)
@@ -4733,6 +5098,8 @@ class Interp:
             if name == "row_stack" or (name == "stack" and axis == 0):
                 if all(p_.ndim == 1 for p_ in parts):
                     return Arr([list(p_.data) for p_ in parts], 2)
+                if name == "stack" and parts and all(p_.ndim == 2 and p_.shape == parts[0].shape for p_ in parts):
+                    return Arr3([p_.copy() for p_ in parts])
             if name == "column_stack" or (name == "stack" and axis in (1, -1)):
                 if all(p_.ndim == 1 for p_ in parts):
                     return Arr([list(r) for r in zip(*[p_.data for p_ in parts])], 2)
